@@ -501,7 +501,10 @@ def dispatch(R):
     for y in g3.yields():
         v = y.ast.value
         from .common import otext
-        ok = isinstance(v, ast.Call) and [otext(R, g3, y, a) for a in v.args] == ['message.code', 'message.reason']
+        from .common import call_args_by_name
+        evq = [t.cls for t in R.types.call_targets(v, g3.ctx) if t.kind == 'ctor'] if isinstance(v, ast.Call) else []
+        ok = bool(evq) and [otext(R, g3, y, a) for a in call_args_by_name(v, R.func(evq[0] + '.__init__'))] == [
+            'message.code', 'message.reason']
         R.ob('C01.dispatch', '_on_close events carry the message\'s code and reason', ok, 'yield %s' % U(v), func=q3, node=v)
 
 
